@@ -116,14 +116,28 @@ def exactness(f, node, depth=0):
             return "INT" if float(n.get("v", "x")) == int(float(n.get("v", "x"))) else "INEXACT"
         except ValueError:
             return "INEXACT"
-    if tw[:1] in ("i", "u") or tw == "b":
-        return "INT"
-    if k == "bin":
+    if k == "bin" and n.get("op") in ("+", "-", "*", "/", "<<", "%"):
         a, b = exactness(f, n["l"], depth), exactness(f, n["r"], depth)
-        if n["op"] in ("+", "-", "*"):
+        if n["op"] in ("+", "-", "*", "<<"):
             return "INT" if a == "INT" and b == "INT" else "INEXACT"
         if n["op"] == "/":
+            # integer division truncates: the quotient is exact only as the LAST step (floor of the real quotient)
             return "QUOT" if a == "INT" and b == "INT" else "INEXACT"
+        if n["op"] == "%":
+            return "INT" if a == "INT" and b == "INT" else "INEXACT"
+    if tw[:1] in ("i", "u") or tw == "b":
+        if k == "ref" and n.get("dk") == "local" and depth < 6:
+            # an integer local initialised once from an inexact value keeps that inexactness
+            from .rules.common import local_init, local_writes
+            try:
+                init, v = local_init(f, n["name"], must=False)
+                if v is not None and init is not None and init >= 0 and not local_writes(f, n["name"], must=False):
+                    e = exactness(f, init, depth + 1)
+                    return e if e in ("QUOT", "INEXACT") else "INT"
+            except Exception:
+                pass
+        return "INT"
+    if k == "bin":
         return "INEXACT"
     if k == "un" and n.get("op") in ("-", "+"):
         return exactness(f, n["sub"], depth)
@@ -140,3 +154,109 @@ def exactness(f, node, depth=0):
         a, b = exactness(f, n["t"], depth), exactness(f, n["f"], depth)
         return a if a == b else ("QUOT" if {a, b} <= {"INT", "QUOT"} else "INEXACT")
     return "INEXACT"
+
+
+# ---------------------------------------------------------------------------------------------------
+# loop progress: a loop whose condition depends only on local variables (iterators, counters, local
+# containers) must change one of them on every path from the head back to the head
+PURE_COND_CALLS = {"end", "cend", "rend", "crend", "begin", "cbegin", "size", "length", "empty", "has_value", "operator bool",
+                   "operator!=", "operator==", "operator<", "operator>", "operator<=", "operator>=", "operator!", "operator*", "operator->",
+                   "get", "value", "at", "operator[]", "count", "contains", "find", "c_str", "data", "front", "back"}
+
+
+def loop_progress(prog, cg, f):
+    """[(loop, control tokens, [(back-edge source block, facts)])] for local-variable-controlled loops of f that
+    have an iteration path without a write to any control variable.  Loops waiting for something external (a call with
+    effects in the condition, a condition declaration, fields/globals in the condition) are not judged."""
+    from .cfg import Flow, loops
+    from .callgraph import node_writes
+    out, examined = [], 0
+    for L in loops(f):
+        s = L["stmt"]
+        if s is None:
+            continue
+        n = f.nodes[s]
+        if n["k"] == "rangefor" or "c" not in n or n["c"] is None or n["c"] < 0:
+            continue
+        cond = n["c"]
+        if n.get("condvar") or any(f.nodes[x]["k"] == "decl" for x in f.walk(cond)):
+            continue
+        ctl, external = set(), False
+        for x in f.walk(cond):
+            m = f.nodes[x]
+            if m["k"] == "call":
+                nm = m.get("cname") or m.get("callee", "")
+                if nm not in PURE_COND_CALLS and not (m.get("op") in ("!=", "==", "<", ">", "<=", ">=", "!", "*", "->", "[]")):
+                    external = True
+            if m["k"] in ("ref", "member"):
+                t = f.var_token(x)
+                if t:
+                    if not t.startswith("L:") or m.get("dk") == "param":
+                        external = True
+                    ctl.add(t)
+        if external or not ctl:
+            continue
+        # a condition declaration (while (T* x = next())) renews the control variable through a call: externally controlled
+        sl = n.get("line")
+        if n["k"] == "while" and any(t.startswith("L:") and ("@%s:" % sl) in t for t in ctl):
+            continue
+        # loop-carried state: locals declared outside the loop that some branch condition inside the loop reads
+        declared_inside = set()
+        for d in f.all("decl"):
+            pos = f.pos_of(d)
+            if pos is not None and pos[0] in L["body"] and pos[0] != L["head"]:
+                for v in f.nodes[d].get("vars", []):
+                    declared_inside.add("L:" + v.get("decl", ""))
+        for b in L["body"]:
+            t = f.blocks[b].get("term") or {}
+            c = t.get("cond")
+            if c is None or c < 0:
+                continue
+            for x in f.walk(c):
+                m = f.nodes[x]
+                if m["k"] == "ref" and m.get("dk") == "local":
+                    tok = f.var_token(x)
+                    if tok and tok not in declared_inside:
+                        ctl.add(tok)
+        examined += 1
+        ev = {}
+        for i in range(len(f.nodes)):
+            pos = f.pos_of(i)
+            if pos is None or pos[0] not in L["body"]:
+                continue
+            if set(node_writes(f, i)) & ctl:
+                ev.setdefault(i, []).append(("set", "progress"))
+        # a control variable declared inside the loop (condition declaration) is renewed on every iteration
+        for d in f.all("decl"):
+            pos = f.pos_of(d)
+            if pos is not None and pos[0] in L["body"] and any(("L:" + v.get("decl", "")) in ctl for v in f.nodes[d].get("vars", [])):
+                ev.setdefault(d, []).append(("set", "progress"))
+        fl = Flow(prog, f, events=ev, start=L["head"], cut=set(L["back_edges"]), cg=cg)
+        # empty latch blocks merge the 'continue' paths: judge their predecessors instead
+        pred = {}
+        for b in f.cfg:
+            for t in b["succ"]:
+                if isinstance(t, int):
+                    pred.setdefault(t, []).append(b["id"])
+        cands, seen, work = [], set(), [b for b, _ in L["back_edges"]]
+        while work:
+            b = work.pop()
+            if b in seen or b not in L["body"]:
+                continue
+            seen.add(b)
+            if not f.blocks[b].get("elems") and b != L["head"]:
+                work.extend(pred.get(b, []))
+            else:
+                cands.append(b)
+        bad = []
+        for b in cands:
+            parts = fl.OUT.get(b)
+            if parts is None:
+                continue
+            for st in parts.values():
+                if "progress" not in st.must:
+                    t = f.blocks[b].get("term") or {}
+                    bad.append((b, t.get("line"), sorted(st.conds, key=str)))
+        if bad:
+            out.append((L, sorted(ctl), bad))
+    return out, examined
